@@ -10,6 +10,7 @@ from .vote import is_f, STATE
 from .msg import tmpls, tkey, MT
 
 PS = "raft::tracker::state::ProgressState"
+STATE_P = "Progress.state"
 
 
 def call_blocks(fn, suffix, pred=None):
@@ -204,6 +205,53 @@ def resume_pairing(cx):
     ws = {s.data["field"] for s, fk, pl in cx.prog.direct_writes(rst.key)}
     calls = {sp.split("::")[-1] for sp, s in cx.prog.calls_out[rst.key] if s.kind == "call"}
     cx.check({"Progress.paused", "Progress.pending_snapshot", "Progress.state"} <= ws and "reset" in calls, "shape:reset_state", "every state change clears paused, pending_snapshot and the inflight window")
+
+
+@obligation("FLOW.resume_sources", ["C13"], floor=3, kind="who-may-call + guard",
+            why="while probing, `paused` is the only thing that keeps a second append from going out before the first is answered: only fresh evidence (an advancing ack, a non-stale rejection, a heartbeat response, a state change) may clear it")
+def resume_sources(cx):
+    unp = {s.fn.key: s.fn for s in cx.prog.writes.get("Progress.paused", []) if "stmt" in s.data and write_value(cx, s) == ("bool", False)}
+    hb = arm_fns(cx, "MsgHeartbeatResponse")
+    n = 0
+    kinds = set()
+    for k, f in unp.items():
+        if STATE_P in [w for w in cx.prog.modset(f)] and any(s.fn is f for s in cx.prog.writes.get(STATE_P, [])):
+            kinds.add("transition")
+            continue   # a state transition / reset: checked by FLOW.transitions
+        if any(s.fn is f for s in cx.prog.writes.get("Progress.matched", [])):
+            kinds.add("transition")
+            continue   # Progress::reset
+        for c in callers_of(cx, f):
+            key = cx.site_key(c, "resume")
+            if c.fn.key in hb or any(c.fn.key == h.key for h in hb.values()):
+                kinds.add("heartbeat")
+                cx.ok(key, "heartbeat response: one more probe per heartbeat interval", c)
+                n += 1
+                continue
+            if any(s.fn is c.fn for s in cx.prog.writes.get("Progress.matched", [])):
+                def advancing(l):
+                    return l[0] == "is" and l[2] is True and l[1][0] == "bin" and l[1][1] == "Lt" and is_f(l[1][2], "Progress.matched") and l[1][3][0] == "param"
+                require(cx, c, key, "an acknowledgement un-pauses the progress only if it advances matched (a stale or duplicated ack must not)", advancing, kill=False)
+                kinds.add("ack")
+                n += 1
+                continue
+            if any(s.fn is c.fn for s in cx.prog.writes.get("Progress.next_idx", [])):
+                def fresh(l):
+                    if l[0] == "notin" and l[1][0] == "param" and 0 in l[2]:
+                        return True
+                    if l[0] == "is" and l[1][0] == "bin" and l[1][1] == "Eq":
+                        xs = l[1][2:4]
+                        if any(x[0] == "param" for x in xs) and any(x[0] == "bin" and x[1] == "Sub" and is_f(x[2], "Progress.next_idx") and x[3] == ("int", 1) for x in xs):
+                            return l[2] is True
+                    return False
+                require(cx, c, key, "a rejection un-pauses the progress only if it answers the outstanding probe (rejected == next_idx - 1) or asks for a snapshot", fresh, kill=False)
+                kinds.add("reject")
+                n += 1
+                continue
+            cx.bad(key, "the progress is un-paused at a site that is neither an advancing ack, a non-stale rejection, a heartbeat response nor a state transition", c)
+    for k in ("ack", "reject", "heartbeat", "transition"):
+        cx.check(k in kinds, "kind:" + k, "un-pausing on %s was found" % k)
+    cx.check(n >= 3, "floor", "resume sites were found")
 
 
 @obligation("FLOW.timers", ["C10", "C16", "C17"], floor=5, kind="pairing (after-edge must-pass) + value shape",
